@@ -130,12 +130,12 @@ class Queries:
             res = r[0] if r else 'unknown'
             values = {}
             if r and res == 'sat':
-                for mm in re.finditer(r'\((\S+) (\(- \d+\)|-?\d+)\)', r[1]):
+                for mm in re.finditer(r'\(([^\s()]+) (\(- \d+\)|-?\d+)\)', r[1]):
                     values[mm.group(1)] = int(mm.group(2).replace('(- ', '-').replace(')', ''))
             self.n += 1
             self.solver_s += r[3] if r else timeout_s
             self.log.append(dict(query=name, result=res, seed=r[2] if r else None, s=round(r[3], 2) if r else None,
-                                 portfolio=seeds))
+                                 portfolio=seeds, raw=(r[1][:200] if r and res == 'sat' else None)))
             if res == 'unknown':
                 self.unknown += 1
             elif res == 'sat':
